@@ -18,7 +18,8 @@ RULE = ('Frames of 2-5 feature columns + label (label anywhere), 2-40 rows, cell
         'string of length 0-3 over {"1","a"}, composed and decomposed "e-acute", whitespace and separator-like strings (":", "-", ",", '
         '" AND ", "2:", "1:1", case / whitespace / numeric-spelling variants); interaction orders 2-4; caps 1..C(k,order)+2; fresh sampler state. Non-trivial = the frame has two '
         'rows with different constituent tuples whose plain concatenations coincide, or >=2 distinct tuples and >=1 repeated tuple '
-        '(for some emitted combination). Distinct = digest of the case.')
+        '(for some emitted combination). A second clause builds production-size frames (3-4.2*10^5 rows, all joint values of two '
+        'id-like columns distinct) on which any digest narrower than 64 bits collides. Distinct = digest of the case.')
 ASSUMPTIONS = ['a 64-bit hash collision between two different joint values would be reported as a violation; its probability over a '
                'whole thorough run is below 1e-12 and is ignored',
                'column names are plain identifiers (the statement is about values; names containing " AND " would make the naming rule ambiguous)']
@@ -128,9 +129,37 @@ def oracle(case, rec):
                                 kind='C10/score')
 
 
+@st.composite
+def wide_case(draw):
+    """Production-size batch: two id-like columns whose joint values are all distinct. Any digest narrower than the stated
+    64 bits collides here with near certainty (32 bits: P(no collision) < 1e-4 at 3*10^5 rows)."""
+    return {'n': draw(st.integers(300_000, 420_000)), 'seed': draw(st.integers(0, 2**32 - 1)), 'a_card': draw(st.sampled_from([600, 1000, 5000]))}
+
+
+def oracle_wide(case, rec):
+    import numpy as np
+    n, a_card = int(case['n']), int(case['a_card'])
+    rng = np.random.Generator(np.random.PCG64(int(case['seed'])))
+    idx = rng.permutation(n)
+    df = pd.DataFrame({'user_id': [f'u{i % a_card}' for i in idx], 'item_id': [f'i{i // a_card}' for i in idx],
+                       'label': ['0', '1'] * (n // 2) + ['0'] * (n % 2)})
+    args = stubs.make_args(interaction_order=2, combination_number_upper_bound=2**15, heuristic='MI-numba-randomized')
+    stubs.reset_globals()
+    out = cr.compute_combined_features(df, args, stubs.PBar())
+    col = out['user_id AND item_id']
+    nd = int(col.nunique())
+    rec.nt(True, key=case)
+    rec.cls('wide-frame')
+    if nd != n:
+        raise Violation(f'{n} rows with pairwise different (user_id, item_id) values but only {nd} distinct interaction values: '
+                        f'the digest is narrower than the stated 64 bits', kind='C10/wide-digest')
+
+
 KINDS = ['C10/interaction', 'C10/originals', 'C10/columns', 'C10/iff', 'C10/score']
 ORACLES = {k: oracle for k in KINDS}
+ORACLES['C10/wide-digest'] = oracle_wide
 
 
 def run(ctx):
-    drive(ctx, [Clause('C10/interaction', case_strategy, oracle, quick=1200, thorough=40000, quick_shards=8)])
+    drive(ctx, [Clause('C10/interaction', case_strategy, oracle, quick=1200, thorough=40000, quick_shards=8),
+                Clause('C10/wide-digest', wide_case, oracle_wide, quick=4, thorough=64, quick_shards=4, thorough_shards=16)])
